@@ -19,10 +19,12 @@ def load(data):
 
 def roundtrip_event(obj, spec, w=False):
     orig = projection.project_any(obj, spec)       # the public state BEFORE saving
+    projection.pop_overflows()                     # (generated inputs stay inside the documented widths)
     data = obj.read()
     out, q = load(data)
+    back = projection.project_any(q, spec, True) if q is not None else {"kind": "none"}
     return {"op": "roundtrip", "w": bool(w), "orig": orig, "chunks": tlv.to_json_nested(data),
-            "outcome": out, "back": projection.project_any(q, spec, True) if q is not None else {"kind": "none"}}
+            "outcome": out, "back": back, "overflow": projection.pop_overflows()}
 
 
 def clone_event(mod, spec, w=False):
@@ -53,8 +55,10 @@ def container_clone_event(obj, spec):
 
 def load_event(data, spec):
     out, q = load(data)
-    return {"op": "load", "chunks": tlv.to_json_nested(data, strict=False), "outcome": out,
-            "obj": projection.project_any(q, spec, True) if q is not None else {"kind": "none"}}
+    projection.pop_overflows()
+    obj = projection.project_any(q, spec, True) if q is not None else {"kind": "none"}
+    return {"op": "load", "chunks": tlv.to_json_nested(data, strict=False), "outcome": out, "obj": obj,
+            "overflow": projection.pop_overflows()}
 
 
 def fixtures():
@@ -122,6 +126,7 @@ def seeds_for_mc(rnd, spec, n, depth=1):
             muts.append({"path": ["modules", mi, "scale"], "vals": [[0, 0], [65535, 65535]]} if m["mtype"] != "Smooth" else
                         {"path": ["modules", mi, "fin"], "vals": [5]})
             muts.append({"path": ["modules", mi, "color"], "vals": [[0, 0, 0], [255, 1, 128]]})
+            muts.append({"path": ["modules", mi, "vis"], "vals": [[0, 0], [450, 39475]]})
             muts.append({"path": ["modules", mi, "moname"], "vals": [[], [[100, 101]], [[195, 169] * 30]]})
             if m["mtype"] != "Output":
                 muts.append({"path": ["modules", mi, "name"], "vals": [[], [120] * 31 + [195, 169], [120] * 30 + [195, 169, 122], [97] * 40]})
